@@ -653,6 +653,36 @@ theorem render_failure_masked_counterexample :
     bodyOf (formatDocstring envMasked stCx 0).1 = some (.pre ['x']) := by
   decide
 
+/-- the summary of a plain-text docstring whose `to_stan` raises (an XML-invalid character) -/
+def envSummaryFails : Env :=
+  { envCx with parser := fun _ _ d => .returns (.plain d) [], plainToNode := fun _ => .returns,
+               walk := fun _ => .summary 2, toStan := fun _ => .raises (.other 3) }
+
+def sumOf : Res Stan → Option Stan
+  | .ok s => some s
+  | .raises _ => none
+
+/-- witness for the open finding `summary:render-failure-unreported`: the body renders, the summary
+shows the BROKEN placeholder, and NOTHING is reported (`format_summary` passes `report=False`) -/
+theorem summary_failure_unreported_counterexample :
+    sumOf (formatSummary envSummaryFails stCx 0).1 = some .broken ∧
+    (formatSummary envSummaryFails stCx 0).2.reports = [] ∧
+    bodyOf (formatDocstring envSummaryFails (formatSummary envSummaryFails stCx 0).2 0).1 = some (.pre ['x']) ∧
+    (formatDocstring envSummaryFails (formatSummary envSummaryFails stCx 0).2 0).2.reports = [] := by
+  decide
+
+/-- witness for the open finding `property:return-only-docstring:fallback-text-lost`, as far as the
+wrappers are concerned: an object whose `docstring` has been blanked to `''` while its
+`parsed_docstring` was set by hand (what `_handlePropertyDef` does for a `@return:`-only docstring)
+falls back to the EMPTY text when rendering fails — `format_docstring_fallback` can only show
+`ctx.docstring`.  The failure itself is reported. -/
+theorem blanked_docstring_fallback_counterexample :
+    let st : St := ⟨fun _ => ⟨some [], some (.user 1 []), none, none⟩, [], [], false⟩
+    let env := { envCx with toStan := fun _ => .raises (.other 3) }
+    bodyOf (formatDocstring env st 0).1 = some (.pre []) ∧
+    (formatDocstring env st 0).2.reports = [⟨0, 0, .exc (.other 3), 0⟩] := by
+  decide
+
 /-- markup problems the parser recovers from (it returns, having stored errors) are all reported
 against the source object -/
 theorem recovered_errors_reported (env : Env) (st : St) (obj src : Obj) (doc : Text) (pd : PD) (errs : List Err)
